@@ -39,6 +39,8 @@ type Case struct {
 	Pos   int  `json:"pos,omitempty"`
 }
 
+var paintProbes = []image.Point{{3, 5}, {27, 5}, {50, 5}, {3, 25}, {27, 25}, {50, 44}}
+
 const sentinel = 0xa5
 
 // guarded returns a copy of b inside a larger allocation whose spare capacity
@@ -92,7 +94,9 @@ func checkRobust(c Case) error {
 	}
 
 	// (ii) Renderer over the recording rasteriser, with per-call accounting
-	rr := &rast.Recorder{NoLattice: true, Limit: 1}
+	// gradient paints are evaluated at a few pixels of the rectangle, first to last row, as a
+	// rasteriser would (the paint is ivg code too, and must not panic either)
+	rr := &rast.Recorder{Limit: 1, Points: paintProbes}
 	var z render.Renderer
 	z.SetRasterizer(rr, image.Rect(3, 5, 3+48, 5+40))
 	var viol error
